@@ -19,6 +19,9 @@ pub struct Case {
     pub server_asks_client_cert: bool,
     pub client_cert: bool,
     pub tls13: bool,
+    /// bytes of ALPN protocol names that enlarge the ClientHello (0 = a plain ~230-byte hello)
+    #[serde(default)]
+    pub alpn_pad: usize,
 }
 
 const SSLREQ_LEN: usize = 36;
@@ -80,7 +83,7 @@ impl Prop for C18 {
         "C18"
     }
     fn rule(&self) -> String {
-        "cases = configuration {TLS offered?, server asks for a client certificate?, client has a certificate?, TLS 1.2 / 1.3} x a C03-style conversation (lock-step or pipelined) x a chunk schedule over the whole client stream. The client is a rustls ClientConnection embedded in the scripted transport: it writes the SSLRequest packet and the ClientHello back-to-back (as real clients do), later flights as rustls produces them, the HandshakeResponse (sequence id 2) and the commands inside the TLS session. Schedule classes: cut k bytes into the SSLRequest; SSLRequest + first k bytes of the ClientHello in one read; everything in one read; 1-byte reads; exact SSLRequest; mixed. Oracle: run_on = Ok; every server byte after the greeting parses as TLS records and is accepted by rustls; the user name from the *encrypted* response and the client's DER chain (or None) reach after_authentication; the decrypted replies equal, message for message, the same conversation run in plaintext (differential); the client never hangs. TLS requested but not offered => Err and after_authentication never called. Non-trivial = some read() returned bytes from both sides of the SSLRequest / ClientHello boundary (measured from the operation log).".into()
+        "cases = configuration {TLS offered?, server asks for a client certificate?, client has a certificate?, TLS 1.2 / 1.3} x a C03-style conversation (lock-step or pipelined) x a chunk schedule over the whole client stream. The client is a rustls ClientConnection embedded in the scripted transport: it writes the SSLRequest packet and the ClientHello back-to-back (as real clients do), later flights as rustls produces them (the ClientHello optionally enlarged to 4-16 KiB by a long ALPN list, as session tickets and post-quantum key shares do), the HandshakeResponse (sequence id 2) and the commands inside the TLS session. Schedule classes: cut k bytes into the SSLRequest; SSLRequest + first k bytes of the ClientHello in one read; everything in one read; 1-byte reads; exact SSLRequest; mixed. Oracle: run_on = Ok; every server byte after the greeting parses as TLS records and is accepted by rustls; the user name from the *encrypted* response and the client's DER chain (or None) reach after_authentication; the decrypted replies equal, message for message, the same conversation run in plaintext (differential); the client never hangs. TLS requested but not offered => Err and after_authentication never called. Non-trivial = some read() returned bytes from both sides of the SSLRequest / ClientHello boundary (measured from the operation log).".into()
     }
     fn assumptions(&self) -> Vec<String> {
         vec![
@@ -109,7 +112,12 @@ impl Prop for C18 {
         conv.lockstep = g.chance(1, 3);
         let (s, _) = gen_tls_schedule(g);
         conv.sched = s;
-        Case { conv, tls_offered: g.chance(5, 6), server_asks_client_cert: g.coin(), client_cert: g.coin(), tls13: g.coin() }
+        let alpn_pad = match g.weighted(&[6, 2, 2]) {
+            0 => 0,
+            1 => g.usize_in(3600, 4200),
+            _ => *g.pick(&[1000usize, 3800, 3900, 4000, 4100, 6000, 8000, 12_000, 15_000]),
+        };
+        Case { conv, tls_offered: g.chance(5, 6), server_asks_client_cert: g.coin(), client_cert: g.coin(), tls13: g.coin(), alpn_pad }
     }
     fn exec(&self, case: &Case) -> Exec {
         let mut ex = Exec::default();
@@ -134,7 +142,7 @@ impl Prop for C18 {
             messages.push(m);
             kinds.push(sc.cmd.reply_kind());
         }
-        let (peer, log) = TlsClientPeer::new(client_config(case.tls13, case.client_cert), ssl_req, messages, kinds.clone(), c.lockstep);
+        let (peer, log) = TlsClientPeer::new(client_config(case.tls13, case.client_cert, case.alpn_pad), ssl_req, messages, kinds.clone(), c.lockstep);
         let tr = Transport::new(Vec::new(), c.sched.clone(), Fault::None);
         tr.0.borrow_mut().peer = Some(Box::new(peer));
         let o = run_raw_tls(c, tr, server_cfg);
@@ -150,6 +158,12 @@ impl Prop for C18 {
             ex.class("read-ends-inside-sslrequest");
         }
         ex.class(if case.tls13 { "tls1.3" } else { "tls1.2" });
+        if log.client_hello_len > 4096 {
+            ex.class("client-hello>4096");
+            if o.ops.iter().any(|op| op.kind == OpKind::Read && op.at < SSLREQ_LEN && op.at + op.n > SSLREQ_LEN + 4096) {
+                ex.class("read-delivers-sslrequest+>4096-bytes-of-hello");
+            }
+        }
         if case.client_cert && case.server_asks_client_cert {
             ex.class("client-certificate-presented");
         }
